@@ -840,7 +840,9 @@ def build_update_recipe(
         # but perhaps they will be useful in debugging some future problem
         field_def = SimpleValue("${{input.%s}}" % attrname, "", -3)
         new_field = FieldFactory(attrname, field_def, "", -4)
-        tables[template.name].fields[attrname] = new_field
+        # hidden (`__`) names are never columns of an output (see TableInfo.register)
+        if not attrname.startswith("__"):
+            tables[template.name].fields[attrname] = new_field
         return new_field
 
     template.fields.extend(
